@@ -46,6 +46,19 @@ echo "## existing suite WITH the change (must pass)" >> $log
 (cd $WT && timeout 1700 go test -mod=mod -vet=off -count=1 -timeout 25m -skip 'TestRemoteDeletionPool$' ./... 2>&1 | grep -E "^(ok|FAIL|---|panic)" ) > $dst/suite.log 2>&1
 cat $dst/suite.log >> $log
 flaky="TestBatchMessageAddedWithMultipleFlags|TestDeleteMailboxFromConnectorAlsoRemoveSubscriptionStatus|TestDeletionPool|TestDraftScenario|TestInvalidIMAPCommandDoesNotBlockStateUpdates|TestMailboxCreatedUpdate|TestMessageAddWithSameID|TestMessageCreatedIDLEUpdate|TestMessageCreatedNoopUpdate|TestMessageCreatedWithIgnoreMissingMailbox|TestMessageFlaggedUpdate|TestMessageRemovedUpdate|TestMessageRemovedUpdateRepeated|TestMessageSeenUpdate"
+if grep -q "^panic: test timed out" $dst/suite.log; then
+  # a hang of package tests under the load of the parallel run (happens on the unchanged tree too): run that package alone
+  echo "## package tests hung in the full run; re-running it alone (up to 2 times, 8 min each)" >> $log
+  for try in 1 2; do
+    (cd $WT && timeout 600 go test -mod=mod -vet=off -count=1 -timeout 8m -skip 'TestRemoteDeletionPool$' ./tests/ 2>&1 | grep -E "^(ok|FAIL|---|panic)") > $dst/suite_tests_alone.log 2>&1
+    cat $dst/suite_tests_alone.log >> $log
+    if grep -q "^ok" $dst/suite_tests_alone.log; then
+      grep -v "^panic: test timed out\|^FAIL" $dst/suite.log > $dst/suite.log.tmp; cat $dst/suite_tests_alone.log >> $dst/suite.log.tmp; mv $dst/suite.log.tmp $dst/suite.log
+      echo "package tests passed when run alone (try $try): the hang is counted as load flake" >> $dst/suite.log
+      break
+    fi
+  done
+fi
 hardnames=$(grep "^--- FAIL" $dst/suite.log | grep -vE "($flaky)" | awk '{print $3}' | sort -u | paste -sd'|')
 hard=$(grep "^--- FAIL\|^panic" $dst/suite.log | grep -vE "($flaky)" | wc -l)
 if [ -n "$hardnames" ] && ! grep -q "^panic" $dst/suite.log; then
